@@ -136,7 +136,13 @@ class HistContainer(IndexedContainer):
         self._unprocessed_entries = []
 
     def _get_error_reference(self):
-        return self._data[1:-1]
+        return self.data  # processes outstanding entries first
+
+    def _on_bin_contents_change(self):
+        # reset member error references to the new bin contents
+        for _err_dict in self._error_dicts.values():
+            _err_dict["err"].reference = self._get_error_reference
+        self._clear_total_error_cache()
 
     # -- public properties
 
@@ -238,6 +244,7 @@ class HistContainer(IndexedContainer):
             self._unprocessed_entries += list(entries)
         except TypeError:
             self._unprocessed_entries.append(entries)
+        self._on_bin_contents_change()
 
     def rebin(self, new_bin_edges):
         """
@@ -258,6 +265,7 @@ class HistContainer(IndexedContainer):
         # mark all entries as unprocessed
         self._unprocessed_entries += self._processed_entries
         self._processed_entries = []
+        self._on_bin_contents_change()
 
     def set_bins(self, bin_heights, underflow=0, overflow=0):
         """
